@@ -262,7 +262,28 @@ func (n *normCtx) hoistFirstCall(s ast.Stmt) []ast.Stmt {
 		}
 	}
 	if st := n.in.calleeOf(n.pkg, call); st == nil || st.c == nil {
-		return keep
+		// not a new function itself, but evaluated before one in the same
+		// statement (`return !b.send(ch, tx.TxHash())`): putting the first
+		// call of a statement into a variable in front of it never changes
+		// the order of evaluation, and the next round finds the new
+		// function's call first
+		later := false
+		for _, r := range roots {
+			ast.Inspect(*r, func(m ast.Node) bool {
+				switch y := m.(type) {
+				case *ast.FuncLit:
+					return false
+				case *ast.CallExpr:
+					if y != call && n.isNewCallee(y) {
+						later = true
+					}
+				}
+				return !later
+			})
+		}
+		if !later {
+			return keep
+		}
 	}
 	// single-valued calls only
 	if tv, ok := n.pkg.TypesInfo.Types[call]; !ok || tv.Type == nil {
